@@ -322,7 +322,7 @@ Error if `read` would return non-ok status."
   (let (read-result (read input 'stdin 1 1))
     (if (= (. read-result 'status) 'ok)
         (. read-result 'result)
-        (throw 'kind 'read-error, 'details read-result))))
+        (throw 'kind 'read-error, 'source 'read-simple, 'details read-result))))
 
 (defun infinite-loop (x)
   "for testing purposes"
